@@ -83,6 +83,27 @@ def sumOk (H : HashFn) (c : Cid) (data : Bytes) : Bool :=
     | none => false
     | some full => c.digest.length ≤ full.length
 
+/-- What go-multihash decides before it looks at any data: is the function registered, and is the
+    requested digest length within its output. -/
+def preOk (H : HashFn) (c : Cid) : Bool :=
+  if c.mhCode = 0 then true
+  else match H c.mhCode [] with
+    | none => false
+    | some full => c.digest.length ≤ full.length
+
+/-- A hash-function family: whether a code is registered, and how long its output is, do not depend
+    on the data hashed. -/
+def HashFn.Uniform (H : HashFn) : Prop :=
+  ∀ code d, (H code d).map List.length = (H code []).map List.length
+
+theorem preOk_eq_sumOk (H : HashFn) (hU : H.Uniform) (c : Cid) (d : Bytes) : preOk H c = sumOk H c d := by
+  unfold preOk sumOk
+  by_cases h0 : c.mhCode = 0
+  · simp [h0]
+  · simp only [h0, ↓reduceIte]
+    have := hU c.mhCode d
+    cases h1 : H c.mhCode d <;> cases h2 : H c.mhCode [] <;> simp_all
+
 /-- The hash check of `BlockReader.Next` / `CarReader.Next`. -/
 def checkBlock (H : HashFn) (trusted : Bool) (b : Block) : Except Err Unit :=
   if trusted then .ok ()
